@@ -598,7 +598,7 @@ func vfConcOracles(c *vfConcCase, h *vfConcHist) (vs []*vfViol, st vfConcStats) 
 					byCall := false
 					for i := range h.Recs {
 						r := &h.Recs[i]
-						if (r.Kind == "del" || r.Kind == "set") && r.Key == sr.Key && r.Inv < exitStamp[t] && exitStamp[t] < r.Res {
+						if (r.Kind == "del" || (r.Kind == "set" && r.OK)) && r.Key == sr.Key && r.Inv < exitStamp[t] && exitStamp[t] < r.Res {
 							byCall = true
 							break
 						}
